@@ -177,6 +177,27 @@ def main():
                % (len(fsel), 3 if quick else 4), r)
     if r["violated"]:
         rep.mc_violation("DenseOnFMC", r)
+    # (B) at formula level: behaviours of DenseOnFMC chosen by TLC's simulator (formula, signals, schedule) replayed on the real monitor;
+    # TraceCt validates them like any recorded execution (contract + call-by-call comparison with the model)
+    rs, behs_f = densemc.run_formulas("C05_formulas_sim", FU, maxt=4, maxn=3, vals=(-2, 1, 3), simulate=120 if quick else 1500, workers=8, seed=core.seed())
+    rep.add_mc("TLC simulation of DenseOnFMC: behaviours generated for replay on the real monitor", rs, exhaustive=False)
+    if rs["violated"]:
+        rep.mc_violation("DenseOnFMC_sim", rs)
+    seen_b, bcases = set(), []
+    for b_ in behs_f:
+        key_ = json.dumps(b_, sort_keys=True)
+        if key_ in seen_b or not b_["hist"]:
+            continue
+        seen_b.add(key_)
+        vs_b = sorted(b_["md"]["io"].keys())
+        o_b = ct_obj(b_["phi"], 1, vs_b, factory=("StlDenseTimeSpecification", "StlDenseTimeOnlineSpecification")[len(bcases) % 2])
+        bcases.append(case([o_b], [ev_parse()] + [ev_ct("update", {v: h_.get(v, []) for v in vs_b}, 1) for h_ in b_["hist"]], kind="tlc"))
+    if len(bcases) > (1500 if quick else 20000):
+        bcases = rng.sample(bcases, 1500 if quick else 20000)
+    btr = runner.run_cases(bcases)
+    bvs, bgen, bdist = core.validate("C05_sim_replay", btr, module="TraceCt")
+    rep.add_traces(btr, bvs, bgen, bdist, nontrivial_key=lambda c: c["objs"][0]["text"] + str([e.get("w") for e in c["events"]]))
+    rep.extra["tlc_behaviours_replayed_on_whole_monitors"] = len(bcases)
     devs = {}
     for dev, f_ in (("constEveryUpdate", bi("or", k03, ax)), ("dropPending", un("onceT", ax, 0, 2)), ("noDedupe", un("onceT", un("histT", ax, 0, 1), 1, 2))):
         r = densemc.run_formulas("C05_formulas_dev_" + dev, [f_], maxt=3, maxn=3, dev=[dev], workers=6, expect_violation=True)
